@@ -97,8 +97,8 @@ def bounded_registration_orders(tier, seed):
             for n in range(1, len(registrable) + 1):
                 for perm in itertools.permutations(registrable, n):
                     orders.append(list(perm))
-                    if tier == 'thorough' or n <= 2:
-                        orders.append(list(perm) + [perm[0]])      # re-registration of the first one at the end
+                    for again in perm:
+                        orders.append(list(perm) + [again])        # re-registration of one of them at the end
             for order in orders:
                 for exact_pos in [None] + list(range(len(order))):
                     if tier != 'thorough' and exact_pos not in (None, 0, len(order) - 1):
@@ -138,6 +138,10 @@ def bounded_registration_orders(tier, seed):
                             if not ok:
                                 has_dict = hasattr(inst, '__dict__')
                                 key = 'objstylekeys-shadow' if (default_types and has_dict and ok_classes) else 'registry-order'
+                                if key == 'registry-order' and fname == 'diamond':
+                                    names = [c.__name__ for c in order]
+                                    if 'E' in names and any(par in names[names.index('E') + 1:] and par not in names[:names.index('E')] for par in ('P', 'Q')):
+                                        key = 'mi-child-before-parent'       # the multiply-inheriting class was registered before one of its parents
                                 if key in seen:
                                     continue
                                 seen.add(key)
